@@ -13,7 +13,7 @@ import sys
 sys.path.insert(0, os.path.dirname(os.path.abspath(__file__)))
 from rsparse import TablegenError, write_if_changed  # noqa: E402
 
-GROUPS = ["bopomofo", "editor", "keyboard", "layout", "symbols", "capi", "readings", "uhash", "trie", "capi_mem"]
+GROUPS = ["bopomofo", "editor", "keyboard", "layout", "symbols", "capi", "readings", "uhash", "trie", "capi_mem", "durability"]
 
 
 def main():
